@@ -3,6 +3,7 @@
 mod rng;
 mod util;
 mod tables;
+mod scriptgen;
 
 use std::cell::RefCell;
 use std::io::{BufRead, Write};
